@@ -24,7 +24,8 @@ structure SearchDb where
 
 /-- `x >= toDate('d')`: the day as its ISO text -/
 def normDate : Expr → Expr
-  | .logical fn [l, .call "toDate" [.str d]] => .logical fn [l, .str d]
+  | .logical fn [l, .call "toDate" [.str d]] =>
+    if fn = "and" ∨ fn = "or" then .logical fn [l, .call "toDate" [.str d]] else .logical fn [l, .str d]
   | e => e
 
 def condHolds (o : Oracles) (r : Row) (e : Expr) : Bool := evalB o [] r (normDate e)
@@ -60,10 +61,13 @@ def evalIdx (o : Oracles) (attrs : Table) (q : IdxQuery) : Table :=
     cut.map (project o [] q.cols)
 
 /-- the row WHERE sees: the table's columns, then the aliases of the SELECT list -/
-def aliasRow (o : Oracles) (cols : List Expr) (r : Row) : Row :=
-  r ++ cols.filterMap (fun c => match c with
-    | .col e a => some (a, evalE o [] r e)
+def aliasList (cols : List Expr) : List (String × Expr) :=
+  cols.filterMap (fun c => match c with
+    | .col e a => some (a, e)
     | _ => none)
+
+def aliasRow (o : Oracles) (cols : List Expr) (r : Row) : Row :=
+  r ++ (aliasList cols).map (fun p => (p.1, evalE o [] r p.2))
 
 def scondHolds (o : Oracles) (db : SearchDb) (r : Row) : SCond → Bool
   | .plain e => condHolds o r e
